@@ -20,8 +20,11 @@ from hypothesis import strategies as st
 WS = [" ", "  ", "\n", "\t", " \n  ", "\r\n", "\r"]
 WS_NOCR = [" ", "  ", "\n", "\t", " \n  "]
 
-NAME_START = list("abcxyzABDIVP_") + ["é", "日"]
-NAME_REST = NAME_START + list("019-._")
+NAME_START = list("abcxyzABDIVP_") + ["é", "日", "न", "★"]
+# (any non-ASCII code point may continue a name: combining marks, vowel
+# signs and symbols included)
+NAME_REST = NAME_START + list("019-._") + ["\u0301", "\u093e", "\u0e34",
+                                           "\u2603"]
 ENTITIES = ["&amp;", "&lt;", "&gt;", "&quot;", "&#38;", "&#x26;", "&nbsp;",
             "&apos;", "&#160;", "&unknown;"]
 TEXT_ATOMS = (
